@@ -40,7 +40,8 @@ func verifNewStakingEnv(rate int) *verifStakingEnv {
 	if sdk.GetConfig().GetBech32AccountAddrPrefix() != fxtypes.AddressPrefix {
 		fxtypes.SetConfig(false)
 	}
-	e := &verifStakingEnv{ms: models.NewMultiStore("staking"), bank: models.NewBank()}
+	ms := models.NewMultiStore("staking")
+	e := &verifStakingEnv{ms: ms, bank: models.NewBank(ms)}
 	e.ctx = models.NewContext(e.ms, 50, 1700000000)
 	unit := sdkmath.NewIntFromUint64(1_000_000_000_000_000_000)
 	val := stakingtypes.Validator{OperatorAddress: verifValAddr.String(), Status: stakingtypes.Bonded,
